@@ -12,7 +12,7 @@ import rasters
 import resamp
 
 
-def whole_image_leg(run: common.Run, n, blocks=(0,), base=700_000):
+def whole_image_leg(run: common.Run, n, blocks=(0,), base=700_000, src_grid=True):
     from homonim.errors import BlockSizeError
     tmp = run.tmpdir()
     lines, metas = [], []
@@ -31,6 +31,22 @@ def whole_image_leg(run: common.Run, n, blocks=(0,), base=700_000):
             tries += 1
         if unsuitable(src, ref):
             continue
+        # processing grid: reference (the usual case), source because the source is the coarser image (the reference is
+        # averaged onto it), or source forced on the finer image (the reference is up-sampled onto it)
+        grid = ['ref', 'ref', 'src-auto', 'src-forced'][(k // 4) % 4] if src_grid else 'ref'
+        if grid == 'src-auto':
+            ps, pr = ref.px, src.px
+            if ps == pr:
+                continue
+            sw, sh = rng.randint(6, 10), rng.randint(6, 10)
+            noisy = rasters.noisy_edges('dyadic', ps, pr) and pr > 1
+            sx0 = ref.x0 + 2 * pr + (rasters.offgrid_offset(rng, 'dyadic', ps, pr) if noisy else rng.randrange(0, pr))
+            sytop = ref.ytop - 2 * pr - (rasters.offgrid_offset(rng, 'dyadic', ps, pr) if noisy else rng.randrange(0, pr))
+            rw = -(-(sx0 + sw * ps - ref.x0) // pr) + 2
+            rh = -(-(ref.ytop - (sytop - sh * ps)) // pr) + 2
+            src, ref = rasters.Grid(sx0, sytop, ps, ps, sw, sh, src.unit), rasters.Grid(ref.x0, ref.ytop, pr, pr, rw, rh, src.unit)
+        if grid == 'src-forced' and src.px == ref.px:
+            grid = 'ref'
         model = ['gain', 'gain-offset'][k % 2]
         ups = ['bilinear', 'nearest'][(k // 2) % 2]
         # equal resolutions: the code treats parameters -> source grid as down-sampling and uses the down-sampling method
@@ -47,22 +63,27 @@ def whole_image_leg(run: common.Run, n, blocks=(0,), base=700_000):
         pair = fusion.write_pair(tmp, f'fi{k}', src, ref, s, r, sv, rv)
         st = [str(int(v)) if m else '_' for v, m in zip(s[0].ravel(), sv.ravel())]
         rt = [str(int(v)) if m else '_' for v, m in zip(r[0].ravel(), rv.ravel())]
-        lines.append('fuseimg %s %d %d %s 1 0 %d %d %d %d %d %d %d %d %d %d %d %d S %s R %s' % (
+        if grid != 'ref':
+            ups_model = 'average' if grid == 'src-auto' else ups
+        lines.append('%s %s %d %d %s 1 0 %d %d %d %d %d %d %d %d %d %d %d %d S %s R %s' % (
+            'fuseimg' if grid == 'ref' else 'fuseimgsrc',
             model, kern[0], kern[1], ups_model, *src.row_axis, *src.col_axis, *ref.row_axis, *ref.col_axis, ' '.join(st), ' '.join(rt)))
-        metas.append((k, pair, src, ref, model, ups, kern))
+        metas.append((k, pair, src, ref, model, ups, kern, grid))
     replies = common.model_batch(lines)
     if replies is None:
         run.model_available = False
         return
-    for (k, pair, src, ref, model, ups, kern), line, rep in zip(metas, lines, replies):
+    for (k, pair, src, ref, model, ups, kern, grid), line, rep in zip(metas, lines, replies):
         m = resamp.parse_model_grid(rep, src.h, src.w)
-        ph, pw = fusion.proc_window_shape(src, ref, True)
+        proc_ref = grid == 'ref'
+        ph, pw = fusion.proc_window_shape(src, ref, proc_ref)
         for hv in blocks:
             case = dict(i=base + k * 10 + hv, op='whole-image model', model=model, kernel=kern, upsampling=ups, halvings=hv,
-                        src=src.to_dict(), ref=ref.to_dict())
+                        grid=grid, src=src.to_dict(), ref=ref.to_dict())
             try:
                 res = fusion.run_fuse(pair.src_path, pair.ref_path, tmp / 'fi_out.tif', model=model, kernel_shape=kern, param=False,
-                                      threads=1, max_block_mem=fusion.block_mem_for(hv, ph, pw, src.px, ref.px, True) if hv else 100,
+                                      threads=1, proc_crs='ref' if proc_ref else 'src',
+                                      max_block_mem=fusion.block_mem_for(hv, ph, pw, src.px, ref.px, proc_ref) if hv else 100,
                                       model_config=dict(upsampling=ups, r2_inpaint_thresh=None))
             except BlockSizeError:
                 continue
@@ -71,7 +92,7 @@ def whole_image_leg(run: common.Run, n, blocks=(0,), base=700_000):
                 continue
             run.evaluations += 1
             run.lines_compared += 1
-            run.hist[f'whole-image model: {model} {ups} blocks={"1" if not hv else ">1"}'] += 1
+            run.hist[f'whole-image model: grid={grid} {model} {ups} blocks={"1" if not hv else ">1"}'] += 1
             run.nontrivial.add(('fuseimg', k, hv))
             a = res.corr[0].astype('float64')
             mm, im = np.isfinite(m), np.isfinite(a)
